@@ -443,7 +443,7 @@ def tap2sna_argv(spec, cfg, tapefile, snafile, stop_at=None):
 
 # ------------------------------------------------------------------ expectation
 
-def expected(spec, machine=None):
+def expected(spec, machine=None, stack_bytes=STACK_BYTES):
     """What the documentation promises about the snapshot.
     segments: list of (bank or None, address, bytes) - for bank None the address is a CPU address, otherwise an offset in the bank.
     excluded: list of (lo, hi, reason) CPU address ranges [lo, hi) the loading process itself is documented to occupy.
@@ -464,7 +464,7 @@ def expected(spec, machine=None):
     if spec['clear'] is None:
         st = spec['eff_stack']
         exp['sp'] = st
-        exp['excluded'].append((st - STACK_BYTES, st, '14 stack bytes below STACK'))
+        exp['excluded'].append((st - stack_bytes, st, '%d stack bytes below STACK' % stack_bytes))
         for lo, hi, name in INT_SYSVARS:
             exp['excluded'].append((lo, hi, 'system variable %s (written by the ROM interrupt routine)' % name))
     return exp
